@@ -44,14 +44,14 @@ PROPS = {
                       "of lean/LdpcV/Model/Decoder.lean over an arbitrary pure `Arith` record (the &mut-self scratch vectors of the built-in "
                       "arithmetics are not modelled); f64 `x <= 0.0` on the bit pattern; the 20 8-bit implementations additionally have an exact "
                       "executable model (lean/LdpcV/Model/ArithI8.lean) compared bit-for-bit",
-                      "not proved: panic-freedom of the 16 float implementations for |LLR| <= 1e30 (NaN never reaching partial_cmp().unwrap()) is only observed"],
+                      "outside C01 (which constrains results): termination without panic of the 16 float implementations. It does NOT hold: on graphs with 4-cycles the f32 messages can double every iteration, overflow to inf, and inf - inf = NaN reaches partial_cmp().unwrap() in the Aminstarf32 layered rule (replays/observed/HLAminstarf32-nan-panic.txt). Such a call returns no result; it is counted under the tag result-panic, not judged"],
         rule=("all 36 names built by DecoderImplementation::build_decoder x 120 (3000 thorough) cases each: matrices with row weight >= 2 from 6 families "
               "(staircase, column-regular, dense, forest-like, mixed-degree, row-random; up to 40 / 200 columns), LLR vectors from 9 magnitude classes "
               "(subnormal ... 1e30, exact zeros, 8-bit rounding boundaries +- ulp, punctured zero blocks, -0.0; signs from codewords with 0-5 flips or random), "
               "limits {0,1,2,3,5,50}; the C01 predicate is evaluated on every result by the Lean driver, and the 20 8-bit names are compared exactly "
               "with the model; non-trivial = the decoder actually iterated (input signs not already a codeword); distinct = distinct canonical input"),
         assumptions=COMMON_ASSUME,
-        partial=["panic-freedom of the 16 float implementations is observed (catch_unwind over the generated classes), not proved"],
+        partial=["a decode call of a float implementation that panics (f32 overflow -> NaN -> partial_cmp().unwrap(), observed for HLAminstarf32 with |LLR| = 1e30, 50 iterations, 4-cycles) yields no result and is outside what C01 states; for the 20 8-bit names a panic is a mismatch with the total model and is reported"],
     ),
     "C18": dict(
         level="proof",
